@@ -289,7 +289,15 @@ func (w *world) run() {
 	}
 	// once per process: the harness' own E1 arithmetic agrees with the library on a genuine
 	// share (decompress / re-compress bit-exact, order r, torsion orders)
-	e1CheckOnce.Do(func() { e1CheckErr = curve.SelfCheckE1(w.pool[0].Bytes) })
+	e1CheckOnce.Do(func() {
+		// on a signature of its own (fresh buffers), not on a share that lives in the run's frame
+		probe, err := w.sks[0].Sign([]byte("thrnet e1 self-check"), crypto.NewExpandMsgXOFKMAC128("thrnet-selfcheck"))
+		if err != nil {
+			e1CheckErr = err
+			return
+		}
+		e1CheckErr = curve.SelfCheckE1(probe)
+	})
 	if e1CheckErr != nil {
 		w.viol("HARNESS", "selfcheck", "selfcheck.e1", "harness E1 arithmetic disagrees with the library: %v", e1CheckErr)
 		return
